@@ -4,8 +4,9 @@ Theorems: coq/Props/Properties_C21.v about C19's model (coq/C19/C19_Model.v) ext
 Tie: the same hook trace replay as C19 on a constrained system (double pendulum closed by a rod), with the projection
 events added: the model's statement "this call returned an interpolated state created with projection on/off" is
 compared with the recorded createInterpolatedState events, and the oracle's proj flag comes from the recorded exit of
-attemptDAEStep.  Predicate (failing-input search, also without hooks): constraint errors of every returned state
-against the constraint tolerance in use."""
+attemptDAEStep.  Predicate (failing-input search, also without hooks): constraint errors of every returned state and of the advanced
+state (the state handed to event handlers / integration resumes from, which must be projected whatever the
+project-interpolated-states option says) against the constraint tolerance in use."""
 import os, math
 from vlib import *
 import C19
@@ -20,19 +21,51 @@ def manifold_predicate(sc):
     for i, e in enumerate(sc['ev']):
         if e['type'] != 'call' or not e['ret']: continue
         r = e['ret']
+        tol = r['tol']
+        # the advanced state (what integration resumes from; after ReachedEventTrigger: what the handler is given) must
+        # be on the manifold whatever the project-interpolated-states option says
+        n += 1
+        what = 'advanced state (handed to the event handler, integration resumes from it)' if r['status'] == 'ReachedEventTrigger' else 'advanced state (integration resumes from it)'
+        if not (r['aqerr'] <= tol * SLACK):
+            fails.append(('adv-qerr', '%s at t=%s after %s: |qerr|=%.3g > tol=%.3g (ratio %.1f), projectInterpolatedStates=%d' % (what, C19.hx(r['adv']), r['status'], r['aqerr'], tol, r['aqerr'] / tol, sc['projInterp']), i))
+        if not (r['auerr'] <= tol * SLACK):
+            fails.append(('adv-uerr', '%s at t=%s after %s: |uerr|=%.3g > tol=%.3g (ratio %.1f), projectInterpolatedStates=%d' % (what, C19.hx(r['adv']), r['status'], r['auerr'], tol, r['auerr'] / tol, sc['projInterp']), i))
         if r['interp'] and not sc['projInterp']: continue
         n += 1
-        tol = r['tol']
         if not (r['qerr'] <= tol * SLACK):
             fails.append(('qerr', '%s state at t=%s (%s): |qerr|=%.3g > tol=%.3g' % ('interpolated' if r['interp'] else 'step', C19.hx(r['t']), r['status'], r['qerr'], tol), i))
         if not (r['uerr'] <= tol * SLACK):
             fails.append(('uerr', '%s state at t=%s (%s): |uerr|=%.3g > tol=%.3g (ratio %.1f)' % ('interpolated' if r['interp'] else 'step', C19.hx(r['t']), r['status'], r['uerr'], tol, r['uerr'] / tol), i))
     return n, fails
 
+def backup_events(sc, e):
+    """every takeOneStep that localized an event strictly inside its step (tHigh < t1: the model's [backed_up]) must
+    have gone through backUpAdvancedStateByInterpolation(tHigh) up to its projection (record C21.backup tHigh 1), and
+    no other step may have; returns (mismatch or None, number compared)"""
+    n = 0; backups = []
+    for t, v in e['recs']:
+        if t == 'C21.backup': backups.append(v)
+        elif t == 'C19.step':
+            need = int(v[4]) == 1 and v[6] < v[3]
+            where = 'script %d (%s) stepTo(%s,%s), takeOneStep from %s: ' % (sc['id'], sc['name'], C19.hx(e['report']), C19.hx(e['sched']), C19.hx(v[0]))
+            if need:
+                n += 1
+                ok = [b for b in backups if b[0] == v[6] and int(b[1]) == 1]
+                if not ok:
+                    return where + 'event window (%s,%s] localized strictly inside the step to %s: the advanced state was backed up to %s but backUpAdvancedStateByInterpolation did not reach its projection (model: always projected, whatever projectInterpolatedStates=%d says)' % (
+                        C19.hx(v[5]), C19.hx(v[6]), C19.hx(v[3]), C19.hx(v[7]), sc['projInterp']), n
+            elif backups:
+                return where + 'backUpAdvancedStateByInterpolation(%s) recorded for a step that needed no back-up' % C19.hx(backups[0][0]), n
+            backups = []
+    return None, n
+
 def projection_events(sc, percall):
     """model vs recorded projection events for the calls replayed; returns mismatch or None and the number compared"""
     n = 0
     for e, tk in percall:
+        if sc['kind'] in (1, 2, 3, 4, 5):      # integrators using AbstractIntegratorRep::backUpAdvancedStateByInterpolation
+            mmb, k = backup_events(sc, e); n += k
+            if mmb: return mmb, n
         mt, mip, madvp, mintp = C19.fx(tk[3]), int(tk[5]), int(tk[9]), int(tk[10])
         where = 'script %d (%s) stepTo(%s,%s) -> %s: ' % (sc['id'], sc['name'], C19.hx(e['report']), C19.hx(e['sched']), tk[1])
         calls = C19.rec_of(e, 'C21.interpcall'); made = C19.rec_of(e, 'C21.interp')
@@ -200,18 +233,21 @@ def run(ctx):
                 percall = []
                 n2, u2, mm, ps = C19.replay_abstract(sc, drv, percall)
                 nrep += n2
-                if mm: ctx.broken.append(('correspondence:stepTo', mm))
+                if mm and not any(b[0] == 'correspondence:stepTo' for b in ctx.broken): ctx.broken.append(('correspondence:stepTo', mm))
                 else:
                     mm2, k = projection_events(sc, percall); nproj += k
-                    if mm2: ctx.broken.append(('correspondence:projection-events', mm2))
+                    if mm2 and not any(b[0] == 'correspondence:projection-events' for b in ctx.broken): ctx.broken.append(('correspondence:projection-events', mm2))
                 if len(samples) < 4 and n2: samples.append('%s acc=%g projInterp=%d: %d calls replayed' % (sc['name'], sc['acc'], sc['projInterp'], n2))
     evals += witness_cpodes_manifold(ctx, exe)
     evals += witness_min_step(ctx, exe)
     ctx.add_cases(evals + nrep, len(paths), samples or ['%s %s-state projInterp=%s' % p for p in sorted(paths)[:6]])
-    ctx.cov['rule'] = ('one evaluation = one state returned by stepTo of a real integrator on a constrained system (double pendulum closed by a rod; '
-                       '9 integrators, random accuracy 1e-3/1e-5, options, request scripts): |qerr|,|uerr| <= constraint tolerance in use '
-                       '(interpolated states only when their projection is on); with hooks, additionally one per call replayed through the model '
-                       'with the projection events compared. distinct_nontrivial = distinct (integrator, step/interpolated, projection option)')
+    ctx.cov['rule'] = ('one evaluation = one constraint-error test of a state of a real integrator on a constrained system (double pendulum closed by a rod; '
+                       '9 integrators, accuracy 1e-2/1e-3/1e-5, constraint tolerance default/1e-6/1e-7, projection of interpolated states on/off, witness '
+                       'functions on time, angle and cos(4.3t+c) so that events are localized inside steps, random request scripts): after every stepTo the '
+                       'returned state (|qerr|,|uerr| <= tolerance; interpolated states only when their projection is on) and the ADVANCED state '
+                       '(what integration resumes from and what an event handler is given: always); with hooks, additionally one per call replayed '
+                       'through the model with the projection events compared (createInterpolatedState by option, backUpAdvancedStateByInterpolation always). '
+                       'distinct_nontrivial = distinct (integrator, step/interpolated, projection option)')
     ctx.extra['hooks_present'] = hooks
     ctx.extra['trace_replay'] = 'done' if hooks else 'SKIPPED: no trace records arrived (hooks C19_hook_*.diff not applied in the tree under test); only the predicate run was done'
     ctx.extra['replayed_calls'] = nrep
